@@ -20,6 +20,13 @@ CHECKS["C12"] = dict(
     note="Trusted: Coq kernel incl. vm_compute; the fail-closed translator mathtable.py (literal table rows, textual normal form of add_function_mapping and find_known_functions.visit_Call, README regex, builtins' __module__ from the interpreter); the hand-written <cmath> signature table; what each std:: function computes (C library). Traces are tests.",
     technique="Coq proof by computation over a table regenerated from source + end-to-end traces",
 )
+CHECKS["C18"] = dict(
+    category="proof",
+    text="Coq defines the value of a C++ integer, floating, boolean and ordinary string literal as a total, fail-closed lexer (Model/CppLex.v: escape sequences, pp-number maximal munch, LP64 integer range) and a hand model of visit_Constant, cpp_string_literal, the argument substitution on the built-in retrieval/getAttribute lines and the booking/fill statements of the three back ends (Model/Consts.v). Proved for all inputs: every byte string is rendered as a literal that lexes back to exactly that string in any following context (C18_str, C18_str_in_context); every integer of magnitude < 2^63 is rendered as a decimal literal of exactly that value, larger ones raise (C18_int, C18_int32, C18_int_unrepresentable); booleans (C18_bool); every text in Python's float repr grammar is emitted unchanged and is exactly one C++ floating literal with the sign of the repr, inf/nan raise (C18_float, C18_float_nonfinite, C18_float_total); bank, attribute, column and tree names stand in one string literal at a fixed place of their line with the name as value and the fixed text after it (C18_names_*). Refutations kept: 64-bit integers keep the declared type int (known finding), and the pre-fix rendering of strings, inf and huge integers. The check plants generated constants at eight positions of a query on all three back ends, requires the model's line verbatim in the written file, and lexes the implementation's text with the extracted lexer as independent oracle (strings byte for byte, ints exactly, floats by exact-rational correctly-rounded conversion, declared column type).",
+    design_ref="5.18",
+    note="Trusted: Coq kernel (vm_compute only on closed template lines and Examples); CppLex.v as the meaning of C++ literals (UTF-8 byte-transparent, no trigraphs, LP64; suffixes/octal/hex/UCN refused); the hand model tied by a differential test; repr(float) round-trips and the compiler rounds a decimal literal to nearest (library facts); extraction + OCaml driver + S-expression codec. func_adl's own AST passes are not modelled (constants are planted in the final AST). Column names are also used to build a C++ identifier: that text is outside this property's projection (C02).",
+    technique="Coq proof (induction over strings / decimal digits, grammar inclusion) + extracted verified lexer as oracle on the real pipeline",
+)
 NOT_YET = {}
 
 def main():
